@@ -122,6 +122,38 @@ theorem onePass_order_counterexample :
     (deliverNested false [.deliverP2O] (run St.init overtaking)).1 = .keyError
     ∧ (deliverNested true [.deliverP2O] (run St.init overtaking)).1 = .ok := by decide
 
+/-! ### messages that are boxed and then cannot be sent
+
+`_box` registers the by-reference objects of a value; `brine.dump` of the whole message runs afterwards and can refuse
+it (an int beyond the str() digit limit, a tuple nested too deep).  `sendFail ks` / `fetchBad ks` are those events in
+the two directions.  The machine follows the generated constant `failedSendReleases` (observed on the live code: are
+the registrations taken back?); the invariant — and with it every theorem above, which quantify over histories
+containing these operations — needs it to be true. -/
+
+/-- the code takes back what it registered for a message it could not send (generated constant) -/
+theorem failed_send_is_released : Gen.Box.failedSendReleases = true := failedSend_released
+
+/-- **Counterexample for code that does not**: one request that cannot be serialized leaves object 7 in the owner's
+table although no proxy exists and nothing is in flight in either direction — exactly what `released_when_dropped`
+and `no_leak_at_quiescence` exclude. -/
+theorem unreleased_failed_send_leaks :
+    (failedBox false Tbl.empty [7]) 7 = some 0
+    ∧ ¬ Inv { St.init with tbl := failedBox false Tbl.empty [7] }
+    ∧ (failedBox true Tbl.empty [7]) 7 = none := by
+  refine ⟨by decide, ?_, by decide⟩
+  intro h
+  have := h.count 7
+  simp [St.init, Tbl.empty, refsO, cnt, delSum] at this
+  revert this
+  decide
+
+/-- with the registrations taken back: a failed request and a failed reply leave nothing behind -/
+example : (run St.init [.sendFail [1, 2, 1], .fetchBad [2], .deliverP2O]).tbl 1 = none
+    ∧ (run St.init [.sendFail [1, 2, 1], .fetchBad [2], .deliverP2O]).tbl 2 = none
+    ∧ (run St.init [.sendFail [1, 2, 1], .fetchBad [2], .deliverP2O]).o2p = [.exc true] := by decide
+/-- ... and an object that is lent meanwhile keeps exactly its count -/
+example : (run St.init [.send [1], .sendFail [1, 1], .fetchBad [1], .deliverP2O]).tbl 1 = some 0 := by decide
+
 /-! ### non-vacuity: the race the statement names, replayed concretely -/
 
 /-- object 7 is sent, received, its proxy dropped (release notice in flight), and *at the same time* sent again
